@@ -22,7 +22,7 @@ RULE = ("twin differential: a construction recipe (constructor kwargs / in-place
         "in both casings with and without defaults, to_json, to_pydict) runs on one twin only; then bytes, ==, and the "
         "neutral tree (oneof selection, None-ness, nested presence) of both twins are compared. Then copy / deepcopy / "
         "pickle round trip of the observed twin: the copy must == the original and encode to identical bytes; containers "
-        "and sub-messages of a deep / unpickled copy are mutated and the original must still encode as before. A failing "
+        "and sub-messages of a deep / unpickled copy are mutated and the original must still encode as before. More data is also DECODED into each copy (original must be unchanged). A directed shard covers google.protobuf.Struct / Value / ListValue (hand-written observers in the bundled library; constructor / parse recipes only). A failing "
         "sequence is reduced to the single observers that reproduce it. distinct = distinct (type, tree, recipe, observer sequence).")
 ASSUMPTIONS = [
     "an observer that raises is counted, not judged (C14 is about state, not totality)",
